@@ -1,0 +1,204 @@
+//! In-crate command driver for the verification harness (only with `--cfg lexgen_verif`, under
+//! `cargo test`). Reads commands from `$LEXGEN_VERIF_CMDS`, writes one result line per command to
+//! `$LEXGEN_VERIF_OUT`.
+//!
+//! Commands (one per line):
+//!
+//! - `RM <op>;<op>;...` where `<op>` is `i lo hi v` (insert), `I lo hi v,lo hi v,...`
+//!   (insert_ranges of a map built by successive inserts), `R lo hi,lo hi,...` (remove_ranges of a
+//!   map built by successive inserts). Prints the ranges after every operation.
+//! - `PARSE <lexer source>`: runs the lexer definition parser, prints the AST.
+//! - `REGEX <regex source>`: runs the regex parser, prints the AST.
+//! - `R2M <regex source>`: regex parser, then `regex_to_range_map` with no bindings.
+
+use crate::ast::{self, Binding, Rule, RuleOrBinding, SingleRule};
+use crate::range_map::RangeMap;
+use crate::semantic_action_table::SemanticActionTable;
+use crate::verif::regex_sexp;
+
+use std::collections::BTreeSet;
+use std::fmt::Write as _;
+use std::panic::{catch_unwind, AssertUnwindSafe};
+
+use syn::parse::Parser;
+
+type Val = BTreeSet<u32>;
+
+fn merge(a: &mut Val, b: Val) {
+    a.extend(b);
+}
+
+fn fmt_map(map: &RangeMap<Val>) -> String {
+    let mut s = String::new();
+    for r in map.iter() {
+        let vals: Vec<String> = r.value.iter().map(|v| v.to_string()).collect();
+        write!(s, "[{} {} {}]", r.start, r.end, vals.join(",")).unwrap();
+    }
+    if s.is_empty() {
+        s.push_str("[]");
+    }
+    s
+}
+
+fn parse_triples(s: &str) -> Vec<(u32, u32, u32)> {
+    s.split(',')
+        .filter(|x| !x.trim().is_empty())
+        .map(|t| {
+            let xs: Vec<u32> = t.split_whitespace().map(|x| x.parse().unwrap()).collect();
+            (xs[0], xs[1], *xs.get(2).unwrap_or(&0))
+        })
+        .collect()
+}
+
+fn run_rm(ops: &str) -> String {
+    let mut map: RangeMap<Val> = RangeMap::new();
+    let mut out = String::new();
+    for op in ops.split(';') {
+        let op = op.trim();
+        if op.is_empty() {
+            continue;
+        }
+        let (kind, rest) = op.split_at(1);
+        let res = catch_unwind(AssertUnwindSafe(|| match kind {
+            "i" => {
+                let t = parse_triples(rest)[0];
+                let mut v = Val::new();
+                v.insert(t.2);
+                map.insert(t.0, t.1, v, merge);
+            }
+            "I" => {
+                let mut other: RangeMap<Val> = RangeMap::new();
+                for t in parse_triples(rest) {
+                    let mut v = Val::new();
+                    v.insert(t.2);
+                    other.insert(t.0, t.1, v, merge);
+                }
+                map.insert_ranges(other.into_iter(), merge);
+            }
+            "R" => {
+                let mut other: RangeMap<Val> = RangeMap::new();
+                for t in parse_triples(rest) {
+                    let mut v = Val::new();
+                    v.insert(t.2);
+                    other.insert(t.0, t.1, v, merge);
+                }
+                map.remove_ranges(&other);
+            }
+            _ => panic!("unknown op"),
+        }));
+        match res {
+            Ok(()) => {
+                out.push_str(&fmt_map(&map));
+                out.push(';');
+            }
+            Err(_) => {
+                out.push_str("PANIC;");
+                break;
+            }
+        }
+    }
+    out
+}
+
+fn rob(r: &RuleOrBinding) -> String {
+    match r {
+        RuleOrBinding::Binding(Binding { var, re }) => format!("(let {} {})", var.0, regex_sexp(re)),
+        RuleOrBinding::Rule(SingleRule { lhs, rhs }) => format!(
+            "(rule {} {} {})",
+            rhs.as_usize(),
+            regex_sexp(&lhs.re),
+            match &lhs.right_ctx {
+                None => "-".to_string(),
+                Some(ctx) => regex_sexp(ctx),
+            }
+        ),
+    }
+}
+
+fn run_parse(src: &str) -> String {
+    let res = catch_unwind(AssertUnwindSafe(|| {
+        let mut table = SemanticActionTable::new();
+        let parsed = ast::make_lexer_parser(&mut table).parse_str(src);
+        match parsed {
+            Err(_) => "ERR".to_string(),
+            Ok(lexer) => {
+                let mut s = String::new();
+                for rule in &lexer.rules {
+                    match rule {
+                        Rule::ErrorType { .. } => s.push_str("(errtype)"),
+                        Rule::RuleOrBinding(r) => s.push_str(&rob(r)),
+                        Rule::RuleSet { name, rules } => {
+                            write!(s, "(ruleset {}", name).unwrap();
+                            for r in rules {
+                                s.push(' ');
+                                s.push_str(&rob(r));
+                            }
+                            s.push(')');
+                        }
+                    }
+                }
+                format!("OK {}", s)
+            }
+        }
+    }));
+    res.unwrap_or_else(|_| "PANIC".to_string())
+}
+
+fn parse_whole_regex(input: syn::parse::ParseStream) -> syn::Result<ast::Regex> {
+    let re = ast::verif_parse_regex(input)?;
+    if !input.is_empty() {
+        return Err(input.error("trailing tokens"));
+    }
+    Ok(re)
+}
+
+fn run_regex(src: &str) -> String {
+    let res = catch_unwind(AssertUnwindSafe(|| match parse_whole_regex.parse_str(src) {
+        Err(_) => "ERR".to_string(),
+        Ok(re) => format!("OK {}", regex_sexp(&re)),
+    }));
+    res.unwrap_or_else(|_| "PANIC".to_string())
+}
+
+fn run_r2m(src: &str) -> String {
+    let res = catch_unwind(AssertUnwindSafe(|| match parse_whole_regex.parse_str(src) {
+        Err(_) => "ERR".to_string(),
+        Ok(re) => {
+            let map = crate::regex_to_nfa::verif_regex_to_range_map(&Default::default(), &re);
+            let mut s = String::new();
+            for r in map.iter() {
+                write!(s, "[{} {}]", r.start, r.end).unwrap();
+            }
+            format!("OK {}", s)
+        }
+    }));
+    res.unwrap_or_else(|_| "PANIC".to_string())
+}
+
+#[test]
+fn verif_driver() {
+    let cmds = match std::env::var_os("LEXGEN_VERIF_CMDS") {
+        None => return,
+        Some(path) => std::fs::read_to_string(path).unwrap(),
+    };
+    let out_path = std::env::var_os("LEXGEN_VERIF_OUT").unwrap();
+    std::panic::set_hook(Box::new(|_| {}));
+    let mut out = String::new();
+    for line in cmds.lines() {
+        let (cmd, rest) = match line.find(' ') {
+            None => (line, ""),
+            Some(i) => (&line[..i], &line[i + 1..]),
+        };
+        let res = match cmd {
+            "RM" => run_rm(rest),
+            "PARSE" => run_parse(rest),
+            "REGEX" => run_regex(rest),
+            "R2M" => run_r2m(rest),
+            _ => "UNKNOWN".to_string(),
+        };
+        out.push_str(&res);
+        out.push('\n');
+    }
+    let _ = std::panic::take_hook();
+    std::fs::write(out_path, out).unwrap();
+}
